@@ -30,11 +30,14 @@ CLAIMED.update({
         "text": "Machine-checked proof for every ordinary cell tree (all bit lengths, ref counts, depths) that the model "
                 "of Cell.__init__/get_hash/get_depth/calculate_representation_hash/__eq__/__hash__ equals the TON "
                 "representation hash and depth of Spec/CellRepr.v, incl. the depth limit; model tied to cell.py by a "
-                "differential run (all 1024 bit lengths, chains at the depth limit, DAGs, 4 construction routes).",
+                "differential run (all 1024 bit lengths, chains at the depth limit, DAGs, 4 construction routes). "
+                "'Equal exactly when the hashes are equal' is also proved structurally: two well-formed trees (ordinary, "
+                "and exotic at the top level) with equal hashes, or whose built cells compare equal, are the same tree or "
+                "exhibit a SHA-256 collision.",
         "design_ref": "DESIGN.md 4.1",
         "technique": "Coq proof by induction on the cell tree (custom nested induction), padding/descriptor arithmetic for "
                      "all lengths; correspondence by extracted OCaml model incl. Gallina SHA-256",
-        "note": "7 theorems closed under the global context; SHA-256 is the executable Gallina function, theorems hold "
+        "note": "13 theorems closed under the global context; SHA-256 is the executable Gallina function, theorems hold "
                 "for any hash function.",
     },
     "C06": {
@@ -214,15 +217,20 @@ CLAIMED.update({
                 "Cell.order visits exactly 1 + (sum of references of the distinct cells): a shared sub-DAG is expanded "
                 "once however many paths lead to it (linear in cells + references); that the BoC parser model consumes at "
                 "least two bytes per parsed cell and an accepted header has room for everything it announces, so count "
-                "fields cannot drive the work. Measured on the implementation: hash operations per order()/to_boc(), cell "
+                "fields cannot drive the work; that the dictionary parser's edge visits are exactly 2*(entries + empty "
+                "terminals) - 1 (2k - 1 for k entries when no exotic cell lies below), at most 2^(key width + 1) - 1, "
+                "independent of the model's fuel, and that an over-long label is refused at once; that the TL "
+                "deserializer accepts a vector only if its announced count fits the bytes that follow (refused before any "
+                "element is parsed otherwise) and never returns a list, string or byte field longer than its input. The "
+                "dictionary visit counter is tied to parse.py by a differential run. Measured on the implementation: hash operations per order()/to_boc(), cell "
                 "parses and TL deserialisations per input byte, on maximal-sharing DAGs and adversarial count fields.",
         "design_ref": "DESIGN.md 4.19",
         "technique": "Coq proof of an exact visit-count identity by nested induction on the instrumented traversal; counting "
-                     "lemmas for the parser model; call-count measurements on the implementation",
-        "note": "5 theorems closed under the global context. The iterative Python loop is modelled by its recursive "
-                "formulation (same order, visits counted per call); library primitives are unit cost. Known finding F32 "
-                "(a DAG-shaped valid dictionary is expanded eagerly into a dict: exponential in the input) is reported as "
-                "KNOWN-FINDING.",
+                     "lemmas for the parser models (BoC, dictionary, TL); call-count correspondence and measurements on the implementation",
+        "note": "24 theorems closed under the global context. The iterative Python loop is modelled by its recursive "
+                "formulation (same order, visits counted per call); library primitives are unit cost. Known findings F32 "
+                "(a DAG-shaped valid dictionary is expanded eagerly into a dict: exponential in the input) and F37 (the "
+                "same chain ending in a pruned branch: exponential walk, empty result) are reported as KNOWN-FINDING.",
     },
 })
 
